@@ -65,19 +65,38 @@ impl From<ClosedStream> for AnyhowError { #[verifier::external_body] fn from(e: 
 impl From<StoppedError> for AnyhowError { #[verifier::external_body] fn from(e: StoppedError) -> AnyhowError { unimplemented!() } }
 impl From<ReadToEndError> for AnyhowError { #[verifier::external_body] fn from(e: ReadToEndError) -> AnyhowError { unimplemented!() } }
 
+// ---- prophecy of the network's behaviour during ONE execution of a connection wrapper: whether each network step
+//      (dial, open the stream pair, finish, stopped, read_to_end) will succeed. Nothing is assumed about it. Every step's
+//      shell reads its own field, so the model is meaningful for functions that perform each step at most once
+//      (connect_and_sync, handle_connection: by inspection of the extracted text; the vacuity twins guard against
+//      contradictory use). ----
+pub struct NetFate { pub connect_ok: bool, pub open_ok: bool, pub finish_ok: bool, pub stopped_ok: bool, pub read_ok: bool }
+pub uninterp spec fn net_fate() -> NetFate;
+pub open spec fn dial_ok(f: NetFate) -> bool { f.connect_ok && f.open_ok }
+pub open spec fn close_ok(f: NetFate) -> bool { f.finish_ok && f.stopped_ok && f.read_ok }
+
 #[verifier::external_body] pub struct SendStream { _p: u8 }
 #[verifier::external_body] pub struct RecvStream { _p: u8 }
 impl AsyncWrite for SendStream {}
 impl AsyncRead for RecvStream {}
+// explicit so that Verus can see the (auto-trait) bound `Unpin` on the concrete stream types
+impl Unpin for SendStream {}
+impl Unpin for RecvStream {}
 impl SendStream {
     #[verifier::external_body]
-    pub fn finish(&mut self) -> std::result::Result<(), ClosedStream> { unimplemented!() }
+    pub fn finish(&mut self) -> (r: std::result::Result<(), ClosedStream>)
+        ensures r is Ok <==> net_fate().finish_ok
+    { unimplemented!() }
     #[verifier::external_body]
-    pub async fn stopped(&self) -> std::result::Result<Option<u64>, StoppedError> { unimplemented!() }
+    pub async fn stopped(&self) -> (r: std::result::Result<Option<u64>, StoppedError>)
+        ensures r is Ok <==> net_fate().stopped_ok
+    { unimplemented!() }
 }
 impl RecvStream {
     #[verifier::external_body]
-    pub async fn read_to_end(&mut self, size_limit: usize) -> std::result::Result<Vec<u8>, ReadToEndError> { unimplemented!() }
+    pub async fn read_to_end(&mut self, size_limit: usize) -> (r: std::result::Result<Vec<u8>, ReadToEndError>)
+        ensures r is Ok <==> net_fate().read_ok
+    { unimplemented!() }
 }
 #[verifier::external_body]
 pub struct ConnectionShell { _p: u8 }
@@ -87,6 +106,10 @@ impl ConnectionShell {
     pub fn remote_id(&self) -> (r: PublicKey) ensures r == self.peer() { unimplemented!() }
     #[verifier::external_body]
     pub async fn accept_bi(&self) -> std::result::Result<(SendStream, RecvStream), ConnectionError> { unimplemented!() }
+    #[verifier::external_body]
+    pub async fn open_bi(&self) -> (r: std::result::Result<(SendStream, RecvStream), ConnectionError>)
+        ensures r is Ok <==> net_fate().open_ok
+    { unimplemented!() }
 }
 pub mod iroh {
     pub mod endpoint {
